@@ -697,6 +697,47 @@ func idsAndStorage(rep *report, g *gen, perType int) {
 				}
 			}
 		}
+		// wire forms of the same header that are NOT its canonical encoding but that the (lenient) header decoder may accept:
+		// an unknown trailing field, a field encoded with a padded varint, the last field left out.  Whatever is accepted, the
+		// ID is the hash of the header's own encoding - it does not follow the bytes that happened to arrive
+		if e1 == nil && len(hb) > 4 {
+			variants := map[string][]byte{
+				"unknown-trailing-field": append(append([]byte{}, hb...), 0x80, 0x01, 0x00),
+				"unknown-trailing-bytes": append(append([]byte{}, hb...), 0xfa, 0x01, 0x02, 0xab, 0xcd),
+			}
+			if hb[0] == 0x08 && hb[1] < 0x80 { // field 1 (version) as a one-byte varint: pad it
+				variants["padded-version"] = append([]byte{0x08, hb[1] | 0x80, 0x00}, hb[2:]...)
+			}
+			for name, vb := range variants {
+				var vh *blockchain.BlockHeader
+				var ve error
+				if where, what := guard(func() { vh, ve = blockchain.NewBlockHeader(vb) }); where != "" {
+					rep.viol("panic:"+where, "NewBlockHeader panics on a non-canonical header ("+name+"): "+what, replay)
+					continue
+				}
+				if ve != nil {
+					rep.Counts["header_variants_rejected"]++
+					continue
+				}
+				rep.Counts["header_variants_accepted"]++
+				re := vh.Encode()
+				if !bytes.Equal(vh.ID, hashOf(re)) {
+					rep.viol("id-unstable", fmt.Sprintf("NewBlockHeader accepts a non-canonical wire form (%s) and gives the header the ID %x; its own encoding hashes to %x: the ID changes on re-encoding / store + load", name, vh.ID, hashOf(re)), replay)
+				}
+				// the same bytes inside a block
+				vbb := append([]byte{0x0a}, uvarint(uint64(len(vb)))...)
+				vbb = append(vbb, vb...)
+				vbb = append(vbb, bb[1+len(uvarint(uint64(len(hb))))+len(hb):]...)
+				var vblk *blockchain.Block
+				if where, what := guard(func() { vblk, ve = blockchain.NewBlock(vbb) }); where != "" {
+					rep.viol("panic:"+where, "NewBlock panics on a block with a non-canonical header ("+name+"): "+what, replay)
+					continue
+				}
+				if ve == nil && !bytes.Equal(vblk.Header.ID, hashOf(vblk.Header.Encode())) {
+					rep.viol("id-unstable", fmt.Sprintf("NewBlock accepts a non-canonical header (%s) and gives the block the ID %x; the header's own encoding hashes to %x", name, vblk.Header.ID, hashOf(vblk.Header.Encode())), replay)
+				}
+			}
+		}
 		// save through the chain
 		events := []*blockchain.Event{}
 		for i := g.r.Intn(3); i > 0; i-- {
@@ -1093,4 +1134,13 @@ func main() {
 	}
 	fmt.Fprintln(os.Stderr, "usage: c08 gen trace.ndjson out.json n | c08 feed cases.ndjson out.json")
 	os.Exit(2)
+}
+
+func uvarint(x uint64) []byte {
+	out := []byte{}
+	for x >= 0x80 {
+		out = append(out, byte(x)|0x80)
+		x >>= 7
+	}
+	return append(out, byte(x))
 }
